@@ -360,8 +360,13 @@ def main(argv=None):
                            'obligations': {o['id']: {'fp': o.get('fp'), 'status': o['status']} for o in obligations}}, f, indent=1, sort_keys=True)
             print('baseline updated: %d obligations, %d units' % (n_ob, len(units)))
 
+    # one line per listed finding (the obligations / inputs it covers are in the evidence file)
+    seen_kf = {}
     for k in known_lines:
-        print(k)
+        head = k.split(' [obligation')[0]
+        seen_kf.setdefault(head, []).append(k)
+    for head, ks in seen_kf.items():
+        print(head + (' [%d obligations / failing inputs]' % len(ks) if len(ks) > 1 else ''))
     print('%s tier=%s obligations=%d discharged=%d known-finding-obligations=%d bounded-cases=%d wall=%.1fs'
           % (prop, a.tier, n_ob, proved, len(kf_obs), bounded.get('cases', 0), wall))
     if violations:
